@@ -187,14 +187,14 @@ func accessPath(v ssa.Value) string {
 		if b == "" || st == nil {
 			return ""
 		}
-		return b + "." + st.Field(x.Field).Name()
+		return b + "." + fname(st.Field(x.Field))
 	case *ssa.Field:
 		b := accessPath(x.X)
 		st, _ := x.X.Type().Underlying().(*types.Struct)
 		if b == "" || st == nil {
 			return ""
 		}
-		return b + "." + st.Field(x.Field).Name()
+		return b + "." + fname(st.Field(x.Field))
 	case *ssa.UnOp:
 		if x.Op == token.MUL {
 			return accessPath(x.X)
